@@ -130,8 +130,10 @@ Section Group.
       destruct (det_nonce _ _ _) as [k|]; [|discriminate]. cbn [p_sign ref_prims] in E.
       destruct (prim_sign _ _ _) as [[[r s] v]|]; [|discriminate]. inversion E. eexists. reflexivity. }
     destruct R as [ri R].
-    rewrite (compact_roundtrip_own sg ri (sig_low_ok sg (sign_det_low sk _ SHSha256d false sg E)) R). cbn [bind].
-    apply bsm_complete; assumption.
+    assert (L : sig_ok sg).
+    { apply sig_low_ok. unfold sign_impl in E. exact (sign_det_low sk (prepend_magic_bytes msg) SHSha256d false sg E). }
+    rewrite (compact_roundtrip_own sg ri L R). cbn [bind].
+    exact (bsm_complete sk msg sg a V Hx E Ha).
   Qed.
 
   (* for every network prefix: the address derived from the signer's key and re-prefixed *)
@@ -147,8 +149,9 @@ Section Group.
     unfold Keys.addr_set_chain in Ep. inversion Ep; subst a; clear Ep. cbn [Keys.a_hash Keys.a_prefix].
     assert (Ha : hash_160 (Keys.pk_point (keys_pub (to_public_key ref_prims sk))) = own_hash sk) by reflexivity.
     split; [|split; [|reflexivity]].
-    - apply bsm_complete; assumption.
-    - apply bsm_complete_compact; assumption.
+    - match goal with |- verify_message_impl _ _ _ ?a = _ => exact (bsm_complete sk msg sg a V Hx E Ha) end.
+    - match goal with |- bind _ (fun sg' => verify_message_impl _ _ _ ?a) = _ =>
+        exact (bsm_complete_compact sk msg sg a V Hx E Ha) end.
   Qed.
 
   (* another message: unless the two digests are congruent modulo n, recovery yields a point different from the
